@@ -19,8 +19,8 @@ The model is a pure function, so the two ways a run can depend on something else
   (`GenState.effective`); generated files are read back only through the accessor-interface look-up
   (`C07_stale_indep`).
 
+Fixed since: F_getGoFile (f3054bd: `getGoFile` is a package-scope look-up now; `C07_getGoFile_fixed`).
 Findings (the unchanged code violates the property; witness theorems below):
-  F_getGoFile      – a type parameter / local type named like the requested type makes the output file name vary
   F_aliasDup       – two parameters aliased to one placeholder: which one is used varies
   F_msgOrder       – the success message lists the files in map order (log line only, not file bytes)
   F_embedderFirst  – `-getset`: a type processed before the shoot type it embeds: the second run differs from the first
@@ -33,20 +33,13 @@ open ShootVerif ShootVerif.DetOrder ShootVerif.GenState
 
 /-- headline: on well-formed inputs the composed run does not depend on the iteration orders -/
 theorem C07_order_indep (o₁ o₂ : Oracle) (i : Input) (h : DetOrder.WF i) : run o₁ i = run o₂ i := by
-  obtain ⟨⟨_, hHdr, hKv, hTab, hOut, hPass⟩, hGo, hInj, hSingle⟩ := h
+  obtain ⟨⟨_, hHdr, hKv, hTab, hOut, hPass⟩, hInj, hSingle⟩ := h
   unfold aliasInjective at hInj
   unfold singleDecl at hSingle
   have perm2 : ∀ {α : Type} (s : String) (l : List α), (o₁.order s l).Perm (o₂.order s l) :=
     fun s l => (o₁.perm s l).trans (o₂.perm s l).symm
   have nodup1 : ∀ {ν : Type} (s : String) (l : Entries String ν), (keys l).Nodup → (keys (o₁.order s l)).Nodup :=
     fun s l hl => keys_nodup_perm (o₁.perm s l).symm hl
-  -- getGoFile
-  have e1 : i.typeNames.map (fun t => getGoFile (o₁.order ("getGoFile/" ++ t) i.defs) t)
-      = i.typeNames.map (fun t => getGoFile (o₂.order ("getGoFile/" ++ t) i.defs) t) := by
-    apply List.map_congr_left
-    intro t ht
-    obtain ⟨f, hf⟩ := hGo t ht
-    exact getGoFile_perm (perm2 _ _) t f (fun d hd => hf d ((o₁.perm _ _).mem_iff.mp hd))
   -- alias
   have e2 : realPathParams (o₁.order "cookClient/asMap" i.alias) i.pathParams
       = realPathParams (o₂.order "cookClient/asMap" i.alias) i.pathParams := by
@@ -95,7 +88,7 @@ theorem C07_order_indep (o₁ o₂ : Oracle) (i : Input) (h : DetOrder.WF i) : r
       = (fun n => DetOrder.get (writeAll (o₂.order "main/srcMap" i.outputs) i.dir) n) := by
     funext n
     exact putAll_perm (perm2 _ _) (nodup1 _ _ hOut) i.dir n
-  simp only [run, e1, e2, e3, e4, e5, e6, e7, e8, e9]
+  simp only [run, e2, e3, e4, e5, e6, e7, e8, e9]
 
 /-- what is read back after the writes is exactly the generated content (and untouched files stay) -/
 theorem C07_writes (ord dir : Entries String String) (h : (keys ord).Nodup) (n : String) :
@@ -121,15 +114,16 @@ def oId : Oracle := { order := fun _ l => l, perm := fun _ l => List.Perm.refl l
 def oRev : Oracle := { order := fun _ l => l.reverse, perm := fun _ l => List.reverse_perm l }
 
 def wInput : Input :=
-  { defs := [⟨"T", true, "a.go"⟩, ⟨"Map", false, "b.go"⟩, ⟨"T", true, "b.go"⟩], typeNames := ["T"],
+  { defs := [⟨"T", true, "a.go", true⟩, ⟨"Map", false, "b.go", true⟩, ⟨"T", true, "b.go", false⟩], typeNames := ["T"],
     alias := [("a", "id"), ("b", "id")], pathParams := ["id"], headers := [], kv := [], tables := [],
     structFiles := [], writeSet := [], coverTest := fun _ => false, passes := [],
     outputs := [("t.shootnew.a.go", "A"), ("t.shootnew.b.go", "B")], dir := [] }
 
-/-- F_getGoFile: `type T struct{…}` in a.go and `func Map[T any](…)` in b.go – `getGoFile` returns a.go or b.go -/
-theorem C07_F_getGoFile_witness :
-    (run oId wInput).goFiles = ["a.go"] ∧ (run oRev wInput).goFiles = ["b.go"] ∧
-    goFileCandidates wInput.defs "T" = ["a.go", "b.go"] := by decide
+/-- fixed by f3054bd: with `type T struct{…}` in a.go and `func Map[T any](…)` in b.go the old first-match-in-map-order
+    could return a.go or b.go; the scope look-up returns the package-level type's file -/
+theorem C07_getGoFile_fixed :
+    getGoFileBefore wInput.defs "T" = "a.go" ∧ getGoFileBefore wInput.defs.reverse "T" = "b.go" ∧
+    (run oId wInput).goFiles = ["a.go"] ∧ (run oRev wInput).goFiles = ["a.go"] := by decide
 
 /-- F_aliasDup: `alias={a:id},{b:id}` – the placeholder `{id}` is filled from `a` or from `b` -/
 theorem C07_F_aliasDup_witness :
@@ -207,7 +201,7 @@ theorem C07_F_staleAllInOne_witness :
 
 /-- a well-formed input with several entries per map: two header tables, two aliases, two passes, two files -/
 def xInput : Input :=
-  { defs := [⟨"T", true, "a.go"⟩, ⟨"U", true, "b.go"⟩, ⟨"T", false, "b.go"⟩], typeNames := ["T", "U"],
+  { defs := [⟨"T", true, "a.go", true⟩, ⟨"U", true, "b.go", true⟩, ⟨"T", true, "b.go", false⟩], typeNames := ["T", "U"],
     alias := [("userID", "id"), ("n", "name")], pathParams := ["id", "name"],
     headers := [("X-A", "1"), ("X-B", "2")], kv := [("X-A", "1"), ("X-B", "2")],
     tables := [("GET", [("Accept", "json")]), ("POST", [("Accept", "json"), ("Content-Type", "json")])],
@@ -217,15 +211,10 @@ def xInput : Input :=
     outputs := [("t.shootmap.a.go", "A"), ("t.shootmap.b.go", "B")], dir := [("t.go", "src")] }
 
 example : DetOrder.WF xInput := by
-  refine ⟨⟨by decide, by decide, by decide, by decide, by decide, ?_⟩, ?_, by unfold aliasInjective; decide, by unfold singleDecl; decide⟩
-  · intro p hp
-    simp only [xInput, List.mem_cons, List.not_mem_nil, or_false] at hp
-    rcases hp with rfl | rfl <;> decide
-  · intro t ht
-    simp only [xInput, List.mem_cons, List.not_mem_nil, or_false] at ht
-    rcases ht with rfl | rfl
-    · exact ⟨"a.go", by decide⟩
-    · exact ⟨"b.go", by decide⟩
+  refine ⟨⟨by decide, by decide, by decide, by decide, by decide, ?_⟩, by unfold aliasInjective; decide, by unfold singleDecl; decide⟩
+  intro p hp
+  simp only [xInput, List.mem_cons, List.not_mem_nil, or_false] at hp
+  rcases hp with rfl | rfl <;> decide
 
 /-- and the run really goes through every site: both orders give this (non-trivial) result -/
 example : (run oId xInput).goFiles = ["a.go", "b.go"] ∧ (run oRev xInput).pathParams = ["userID", "n"] ∧
